@@ -17,18 +17,18 @@ Theorem slice_slow_eq_ref :
 Proof. exact slice_slow_eq_ref_proof. Qed.
 Print Assumptions slice_slow_eq_ref.
 
-(* 2. the same for the fast (candidate based) line path, non-inverted search: for every matcher
-      whose find_by_line_fast obeys its contract on whole-line buffers ("the line found is the
-      first remaining line the pattern matches; none means no remaining line matches" — this is
-      what property C11/C01 establish for the regex matcher), whichever of the two paths
-      is_line_by_line_fast selects, including the switch to the slow path once stop-on-nonmatch
-      has seen a match. *)
+(* 2. the same for every configuration and whichever line path is_line_by_line_fast selects
+      (fast candidate-based path, inverted or not, the switch to the slow path once
+      stop-on-nonmatch has seen a match, passthru): for every matcher whose find_by_line_fast
+      obeys its contract on whole-line buffers — "the line found is the first remaining line the
+      pattern matches; none found means no remaining line matches", which is what properties
+      C11/C01 establish for the regex matcher. *)
 From RG Require Import Proofs.FastPathProofs.
-Theorem slice_eq_ref_noninvert :
+Theorem slice_eq_ref :
   forall (cfg : config) (M : matcher),
     c_binary cfg = BNone ->
     forall s : bytes,
-    find_spec cfg M s -> c_invert cfg = false -> c_passthru cfg = false ->
+    find_spec cfg M s ->
     slice_by_line_run cfg M (fun _ => Continue) s = RunOk (grep_ref cfg (m_is_match M) s).
-Proof. exact slice_eq_ref_noninvert_proof. Qed.
-Print Assumptions slice_eq_ref_noninvert.
+Proof. exact slice_eq_ref_proof. Qed.
+Print Assumptions slice_eq_ref.
